@@ -619,6 +619,14 @@ def r05_10(ctx):
                 tyok = "ser::State" in f.locals[pl[0]]["ty"] or (names and names[-1] == "state")
                 if tyok:
                     state_sw.append((b, t))
+        # the same test written as a comparison (state != State::Empty): a bool switch fed by eq/ne over State operands
+        for b, t in f.calls():
+            if callee_is(t, "eq", "ne") and "State" in " ".join((t.get("rgargs") or []) + (t.get("gargs") or []) + [t["callee"]] + (t.get("argtys") or [])):
+                e_ = bool_switch_edges(f, t["dest"][0])
+                if e_:
+                    for bb, tt in f.terms():
+                        if tt["k"] == "switch" and set([x for v, x in tt["targets"]] + [tt["otherwise"]]) == set(e_):
+                            state_sw.append((bb, tt))
         guarded, uncond = [], []
         for cb, ct in closers:
             g = False
